@@ -109,7 +109,9 @@ func c06Run(c c06Case) []mc.Finding {
 	if c.Kind == "Widget" {
 		k = kit.Widget
 	}
-	o := dcOpt{parents: []*sim.Kind{kit.Thing}, attachments: []*sim.Kind{k}}
+	// (a second attachment kind without any strategy is declared FIRST: the strategy of a kind must not depend on
+	// the rules listed before it)
+	o := dcOpt{parents: []*sim.Kind{kit.Thing}, attachments: []*sim.Kind{kit.Gadget, k}}
 	if c.Method != "<unset>" {
 		o.methods = map[string]v1alpha1.ChildUpdateMethod{k.Resource: v1alpha1.ChildUpdateMethod(c.Method)}
 	}
